@@ -4,7 +4,7 @@
    themselves (rename within a directory is atomic, a file being written is partial until closed) are
    the trusted description of the operating system. *)
 From Coq Require Import List Bool Arith.
-From TC Require Import Crash CrashProofs.
+From TC Require Import Crash CrashProofs Resume ResumeProofs.
 Import ListNotations.
 
 (* for every data class, every state of the work and aside names left by earlier attempts, and every
@@ -57,3 +57,18 @@ Example C05_nonvacuous :
   [Complete 1; Complete 1; Complete 1; Complete 1; Complete 1; Complete 1; Complete 1; Absent;
    Complete 2; Complete 2; Complete 2].
 Proof. exact crash_states_dir. Qed.
+
+(* ---------- a resumable task that appends batches of rows (H5Data.append_data, Model/Resume.v) ---------- *)
+(* whatever attempts were killed after the rows of a batch reached the file and before their commit - any number of them,
+   at any batch, also the first - the attempt that runs to the end leaves exactly the batches, once, all committed *)
+Theorem C05_resumed_rows_exact : forall (A : Type) always (batches : list (list A)) plans,
+  resume always batches 0 [] (plans ++ [None]) = (length batches, concat batches).
+Proof. exact @resumed_rows_exact. Qed.
+Print Assumptions C05_resumed_rows_exact.
+
+(* between attempts the file holds the committed batches and at most the one that was being stored *)
+Theorem C05_resumed_rows_between_attempts : forall (A : Type) always (batches : list (list A)) plans,
+  exists m, fst (resume always batches 0 [] plans) <= m <= S (fst (resume always batches 0 [] plans)) /\
+            m <= length batches /\ snd (resume always batches 0 [] plans) = concat (firstn m batches).
+Proof. exact @resumed_rows_prefix. Qed.
+Print Assumptions C05_resumed_rows_between_attempts.
